@@ -72,6 +72,7 @@ func launch(name string) {
 		os.Stderr.Write([]byte("start daemon: " + err.Error()))
 		return
 	} else {
+		verifPause("launch.afterStart")
 		binary.Write(os.Stdout, binary.LittleEndian, uint32(cmd.Process.Pid))
 	}
 
